@@ -136,6 +136,7 @@ def conds_c15(tier):
     cs.append(xhrun.Cond(H, "c15_composite", {"XH_MEMBERS": 3, "XH_NMIN": 0, "XH_NMAX": 3 if quick else 4,
                                                "XH_BODY_RAISE": 1}, timeout=600, label="c15_composite_m3_body_raises"))
     cs.append(xhrun.Cond(H, "c15_enter_fail", {}, timeout=120, label="c15_enter_fail"))
+    cs.append(xhrun.Cond(H, "c15_cfail", {}, timeout=300, label="c15_failure_in_c_level_callable"))
     return cs, {"max_ops_per_shape": info}
 
 
